@@ -83,8 +83,9 @@ class CtlGen:
     comparisons on the arguments; loops are `while ext(k)` or `for i in range(n)`.
     """
 
-    def __init__(self, ch, max_compounds=2, max_depth=2, max_term=2, arg_tests=False, seq=True, pass_bodies=False):
+    def __init__(self, ch, max_compounds=2, max_depth=2, max_term=2, arg_tests=False, seq=True, pass_bodies=False, kinds=None):
         self.ch = ch
+        self.kinds = kinds or KINDS
         self.pass_bodies = pass_bodies
         self.compounds = max_compounds
         self.max_depth = max_depth
@@ -119,7 +120,7 @@ class CtlGen:
         return o
 
     def compound(self, ind, depth, inloop):
-        kind = KINDS[self.ch.choose(len(KINDS))]
+        kind = self.kinds[self.ch.choose(len(self.kinds))]
         self.kinds_used.append(kind)
         self.compounds -= 1
         out = []
